@@ -609,16 +609,21 @@ def gen_temporal_spec(rng, size=None):
     first = True
     blocks = [rng.choice(HEADERS) for _ in range(rng.randrange(1, 4))]
     plain_verbs = []
+    preamble = rng.random() < 0.35     # domain sentences written BEFORE the first header (they belong to no block)
     for bi, h in enumerate(blocks):
         hdr = h
         if bi == 0:
             for c in sp.concepts:
+                if preamble:
+                    hdr_keep, hdr = hdr, None
                 lo = rng.randrange(0, 2)
                 s = Sentence(f'{article(c.name).capitalize()} {c.name} goes from {lo} to {lo + rng.randrange(1, 3)}.', 'range', uses=[c.name])
                 s.text = (hdr + '\n' + s.text) if hdr else s.text
                 s.header = hdr
                 hdr = None
                 sp.sentences.append(s)
+                if preamble:
+                    hdr = hdr_keep
         for _ in range(rng.randrange(1, 4)):
             c = rng.choice(sp.concepts)
             x = fresh_labels(rng, 1)[0]
